@@ -21,7 +21,7 @@ OUT = os.environ.get("VERIF_OUT") or VERIF     # evidence/ and replays/ go here 
 TIERS = {
     # per-task path cap, per-task wall budget (s), per-query timeout (ms), validation samples
     "quick": dict(max_paths=4000, task_budget=150.0, qtimeout_ms=10000, nsamples=3, max_replays=6),
-    "thorough": dict(max_paths=60000, task_budget=1500.0, qtimeout_ms=60000, nsamples=6, max_replays=10),
+    "thorough": dict(max_paths=60000, task_budget=700.0, qtimeout_ms=30000, nsamples=6, max_replays=10),
 }
 
 
